@@ -13,6 +13,7 @@ CFG = {
         "Leptos.Stream.C07_out_of_order_total",
         "Leptos.Stream.C07_out_of_order_views",
         "Leptos.Stream.C07_fallback_until_ready_doc",
+        "Leptos.Stream.C07_fallback_until_ready_static",
         # all programs, both modes
         "Leptos.Stream.C07_terminates",
         "Leptos.Stream.C07_no_dup_no_drop",
@@ -48,6 +49,8 @@ CFG = {
         "Leptos.Stream.ORel_start",
         "Leptos.Stream.ORel_done",
         "Leptos.Stream.compile_clean",
+        "Leptos.Stream.stripMarkers_segs",
+        "Leptos.Stream.OInv.resolved",
     ],
     "harness_pkg": "hx-c07",
     "harness_bin": "c07",
@@ -58,10 +61,12 @@ CFG = {
             "push_async_out_of_order(_with_nonce) with Some/None views, next_id, new(clone_id)+append, finish, take_chunks) run "
             "against the real StreamBuilder through its public API, futures = oneshot receivers, the real Stream polled by hand "
             "with a no-op waker; (B) view level: view trees as data (elements, text, tuples, Vec, Suspend::new(async{rx.await; view}), "
-            "<Suspense>/<Transition> with fallback, <Await>, <ErrorBoundary>; nesting <= 3, <= 6 futures, some futures completed "
-            "before rendering) built with the real leptos components under an Owner with an SsrSharedContext and rendered with "
+            "<Suspense>/<Transition> with fallback, <Await>, <ErrorBoundary>, server resources under a boundary: OnceResource / "
+            "Resource / AsyncDerived read synchronously (`move || res.get().map(..)`) or awaited in a Suspend, LocalResource "
+            "read synchronously or awaited (first thing, or after another future: free mode only) by a boundary's children "
+            "=> the fallback stays and the stream ends; nesting <= 3, <= 6 futures, some futures completed before rendering) built with the real leptos components under an Owner with an SsrSharedContext and rendered with "
             "to_html_stream_in_order()/to_html_stream_out_of_order(); executor = hx_common::sched (run ops choose the task order, "
-            "the executor is drained before every stream poll). Exhaustive small scope: 5 view shapes and 3 builder shapes with "
+            "the executor is drained before every stream poll). Exhaustive small scope: 6 view shapes and 3 builder shapes with "
             "2-4 futures x both modes x ALL completion permutations x ALL poll interleavings with 0..2 polls between completions "
             "(0..1 for 4 futures; 0..3 / 0..2 in the thorough tier); then seeded random views / view-shaped programs / arbitrary "
             "API programs (chunk comparison only) with random grouped schedules. Observable: every poll's result (exact chunk "
@@ -86,14 +91,20 @@ CFG = {
                  "RenderHtml::to_html_stream_in_order/out_of_order"],
     "assumptions": [
         "pushed strings are ASCII and contain no marker/template/script syntax of their own (tachys escapes `<` in text)",
+        "server resources are only generated where they are created together with the future that waits for them (at render "
+        "time or with their boundary); a resource created inside the output of a Suspend needs one more executor turn, and a sync "
+        "resource read inside another read's output is not waited for by leptos at all (neither is generated)",
+        "a LocalResource awaited after another future resolves its boundary at a poll that depends on futures::select!'s random "
+        "order: compared on the final document only (free mode); in out-of-order mode that chunk has replace = false, which the "
+        "OooWf theorems do not cover (oooViewOk)",
         "the executor is drained between stream polls on the view level (stream polls while tasks are still runnable are not explored)",
         "u16 overflow of next_id (65535 boundaries in one builder) is not modelled; nonce feature, islands, mark_branches, extra_attrs, "
         "LocalResource are outside the view grammar (replace = false is covered on the builder level)",
         "F-C07-2..5 are repaired by hooks/fix-c07-{2,3,4,5}.patch (fix: commits in /repo); the model follows the repaired code, the "
         "old behaviour is kept as Builder.appendOld / inPlaceBufOld / compileOld with kernel-checked regression witnesses",
         "out-of-order theorems assume text hygiene (cleanOps: no marker/template/script syntax inside pushed strings, every `<` "
-        "closed inside its string) and no nonce; C07_fallback_until_ready_stmt (a static reformulation of the proved "
-        "C07_fallback_until_ready_doc) is OPEN",
+        "closed inside its string) and no nonce; nothing is left OPEN (the static fallback form is "
+        "C07_fallback_until_ready_static, over the inductive PartialDoc)",
     ],
     "manifest": {
         "category": "proof",
@@ -106,7 +117,9 @@ CFG = {
                 "programs in the proved class (C07_views_wellformed, every view of the grammar incl. ErrorBoundary). Out-of-order "
                 "document equality is PROVED for all OooWf programs with clean strings and all schedules, at the end of the stream "
                 "(C07_out_of_order, _total, _views: applyScripts(concat) = resolved document; no panic) and at every moment "
-                "(C07_fallback_until_ready_doc: the holes of the client's document are exactly the unresolved futures), via a string "
+                "(C07_fallback_until_ready_doc: the holes of the client's document are exactly the unresolved futures; "
+                "C07_fallback_until_ready_static: marker comments ignored, the client's document is a PartialDoc of the program over "
+                "the completed futures — each out-of-order future shows its fallback or, only if completed, its content), via a string "
                 "layer (substring search on tag-closed pieces), a client layer (inline scripts = hole substitution) and a step "
                 "invariant of poll_next. Four defects found and reproduced on the real code "
                 "(ErrorBoundary in-order mis-ordering and out-of-order duplicate marker ids, nested Suspend under Suspense dropped, "
@@ -115,7 +128,7 @@ CFG = {
                 "code by a differential run of the real StreamBuilder/Suspense/ErrorBoundary against the compiled model at builder "
                 "and view level, exhaustive over completion orders x poll interleavings for small shapes.",
         "design_ref": "DESIGN.md §7 C07",
-        "note": "model hand-written; out-of-order theorems under a text-hygiene hypothesis; one static reformulation left OPEN",
+        "note": "model hand-written; out-of-order theorems under a text-hygiene hypothesis",
         "technique": "Lean 4 proof (step invariants + termination measure over all schedules) + refutation witnesses + differential correspondence",
     },
 }
